@@ -198,10 +198,35 @@ func buildConfig(g c09group, pattern []int, exprParent bool, useLevel int) *Prog
 		}
 		ts[tname(k)] = tpl(tname(k), body...)
 	}
+	// a library may define its blocks anywhere - inside a condition, a loop, a capture or a filter section: a block
+	// is a block (the library's own layout is never rendered)
+	inside := func(k int, b *gen.NBlock) gen.Node {
+		switch k % 5 {
+		case 1:
+			return &gen.NIf{Conds: []gen.Expr{&gen.EBool{V: true}}, Bodies: [][]gen.Node{{tx("lib-if"), b}}}
+		case 2:
+			return &gen.NFor{Val: "li", Seq: &gen.EArr{Els: []gen.Expr{num(1)}}, Body: []gen.Node{b}}
+		case 3:
+			return &gen.NSetCap{Name: "libcap", Body: []gen.Node{b}}
+		case 4:
+			return &gen.NFilter{Filters: []string{"up"}, Body: []gen.Node{b}}
+		}
+		return b
+	}
+	shapeNo := g.L + g.B + g.layout + len(pattern) + useLevel
+	for _, v := range pattern {
+		shapeNo += v
+	}
+	// an imported block that has a block of its own in front of its parent() calls
+	withNested := func(tag string) []gen.Node {
+		bb := blockBody(tag, true)
+		nested := &gen.NBlock{Name: "unest", Body: []gen.Node{tx("<" + tag + ".unest>")}}
+		return append([]gen.Node{bb[0], nested}, bb[1:]...)
+	}
 	if g.use == 1 {
 		// imported blocks: the last block name, calling parent(), and an unrelated one
 		last := "b" + strconv.Itoa(g.B-1)
-		ts["ublk"] = tpl("ublk", &gen.NBlock{Name: last, Body: blockBody("ublk."+last, true)}, tx("IGNORED-ublk"))
+		ts["ublk"] = tpl("ublk", inside(shapeNo, &gen.NBlock{Name: last, Body: blockBody("ublk."+last, true)}), tx("IGNORED-ublk"))
 	}
 	if g.use == 4 {
 		last := "b" + strconv.Itoa(g.B-1)
@@ -211,7 +236,11 @@ func buildConfig(g c09group, pattern []int, exprParent bool, useLevel int) *Prog
 		ts["ublk3"] = tpl("ublk3", &gen.NBlock{Name: "orig0", Body: blockBody("ublk3.orig0", true)}, tx("IGNORED-ublk3"), &gen.NBlock{Name: "orig1", Body: blockBody("ublk3.orig1", true)})
 	}
 	if g.use >= 2 && g.use != 5 {
-		ts["ublk"] = tpl("ublk", &gen.NBlock{Name: "orig0", Body: blockBody("ublk.orig0", true)})
+		body := blockBody("ublk.orig0", true)
+		if shapeNo%2 == 0 {
+			body = withNested("ublk.orig0")
+		}
+		ts["ublk"] = tpl("ublk", inside(shapeNo/2, &gen.NBlock{Name: "orig0", Body: body}))
 	}
 	return &Program{Templates: ts, Main: tname(g.L - 1), Ctx: map[string]interface{}{}}
 }
